@@ -76,6 +76,10 @@ pub mod dht_network_manager;
 /// Transport handle: shared QUIC + peer + event state
 pub mod transport_handle;
 
+/// Verification seams used by external runtime monitors (off by default)
+#[cfg(feature = "verif-hooks")]
+pub mod verif_hooks;
+
 /// Transport layer (QUIC, TCP)
 pub mod transport;
 
